@@ -12,7 +12,7 @@ CONSTANT FreePut = TRUE
 CONSTANT MaxOps = 1000000
 CONSTANT MaxSteps = 1000000
 CONSTANT Pool = 12
-CONSTANT Sequential = TRUE
+CONSTANT SeqPrefix = 1000000
 CONSTRAINT Progress
 POSTCONDITION Accept
 CHECK_DEADLOCK FALSE
